@@ -208,21 +208,37 @@ def run(tier, selftest=False, only=None):
     for (spec, impl), exp in zip(cases, out):
         rep.case(spec)
         tag = {"case": describe(impl)}
+        with rep.guard("layout", tag):
+            _case(rep, spec, impl, exp, tag)
+    rep.traces = len(cases)
+    rep.sample({"spec_case": cases[0][0], "expected_default_state": [float(UO.mono(m)) for m in out[0]["state"]]})
+    if selftest:
+        spec, impl = cases[0]
+        system = build(impl)
+        want = [float(UO.mono(m)) for m in out[0]["state"]]
+        perm = list(reversed(want))
+        rep.selftest("a permuted expected array differs from the implementation's",
+                     perm == want or not all(close(a, b) for a, b in zip(si_state(system), perm)))
+    return rep.finish()
+
+
+def _case(rep, spec, impl, exp, tag):
+    if True:
         try:
             system = build(impl)
         except Exception as e:  # noqa
             rep.violation("default", "layout:build-exception", dict(tag, exc=repr(e)[:200]))
-            continue
+            return
         N, nS = impl["N"], spec["nS"]
         want = [float(UO.mono(m)) for m in exp["state"]]
         got = si_state(system)
         if len(got) != nS * N or not all(close(a, b) for a, b in zip(got, want)):
             k = next((i for i, (a, b) in enumerate(zip(got, want)) if not close(a, b)), -1)
             rep.violation("default", "layout:default-state", dict(tag, index=k, got=got, spec=want))
-            continue
+            return
         if [int(v) for v in system.chemostats] != [int(bool(b)) for b in exp["chem"]]:
             rep.violation("default", "layout:default-chemostats", dict(tag, got=[int(v) for v in system.chemostats], spec=exp["chem"]))
-            continue
+            return
         labels = [kw["label"] for kw in impl["species"]]
         ok = True
         for e, st in zip(impl["edits"], exp["steps"]):
@@ -262,7 +278,7 @@ def run(tier, selftest=False, only=None):
                 ok = False
                 break
         if not ok:
-            continue
+            return
         # regenerating the defaults after editing a species reflects the edit
         s0 = system.network.species[0]
         eff = (s0.units_system["space"], s0.units_system["time"], s0.units_system["quantity"])
@@ -274,16 +290,6 @@ def run(tier, selftest=False, only=None):
             if not close(got[c], want):
                 rep.violation("default", "layout:regenerated-default", dict(tag, cell=c, got=got[c], spec=want))
                 break
-    rep.traces = len(cases)
-    rep.sample({"spec_case": cases[0][0], "expected_default_state": [float(UO.mono(m)) for m in out[0]["state"]]})
-    if selftest:
-        spec, impl = cases[0]
-        system = build(impl)
-        want = [float(UO.mono(m)) for m in out[0]["state"]]
-        perm = list(reversed(want))
-        rep.selftest("a permuted expected array differs from the implementation's",
-                     perm == want or not all(close(a, b) for a, b in zip(si_state(system), perm)))
-    return rep.finish()
 
 
 def replay(rp):
